@@ -1,10 +1,12 @@
 ENTRY = dict(
-    runner="C11", pkg="./cmd/c11", corr=["Corr.C11Corr"], n=dict(quick=500, thorough=500), runner_timeout=900,
+    runner="C11", pkg="./cmd/c11", corr=["Corr.C11Corr"], n=dict(quick=1200, thorough=1200), runner_timeout=900,
     rule="every predefined parrot (38) over loopback TCP against the STOCK server of the utls package (tls.Server): TLS 1.3; "
          "TLS 1.3 with a HelloRetryRequest (server CurvePreferences = P-256 resp. P-384 only); TLS 1.2 (server MaxVersion); server "
          "ALPN preferences {h2+http/1.1, http/1.1, none}; resumption at 1.3 and 1.2 (shared LRU ClientSessionCache, tickets on, "
          "second connection judged); server-name variants: RemoveSNIExtension (1.3 and 1.2), IP-literal Config.ServerName, the "
-         "parrot's spec with the SNI extension deleted (HelloCustom + ApplyPreset). Rows whose handshake does not succeed are "
+         "parrot's spec with the SNI extension deleted (HelloCustom + ApplyPreset); against the SCRIPTED server (verif_server.go) the flight "
+         "shapes the stock one never sends: CompressedCertificate(brotli) with and without HelloRetryRequest, application_settings "
+         "(17513 / 17613) answered by a client EncryptedExtensions message. Rows whose handshake does not succeed are "
          "counted and skipped (the property is about successful handshakes). Go-side oracle from the property text: Version, "
          "CipherSuite, NegotiatedProtocol, CurveID (VerifCurveID), DidResume, ECHAccepted, ServerName equal on both ends; both "
          "ServerNames equal the SNI parsed from the wire hello ('' if none); ExportKeyingMaterial equal (bytes or refusal) for 5 "
@@ -12,7 +14,7 @@ ENTRY = dict(
          "on uconn.Extensions) for every successful row, CState (client_run and server_state on the flight parsed from the "
          "server's plaintext messages) for every successful row except TLS 1.2 resumptions. Distinct by (parrot, variant); CName "
          "is non-trivial when an SNI extension is on the wire or the row is a server-name variant.",
-    trusted_base=["stock utls server as the peer; verif_c12.go accessors (VerifClientViewOf, VerifCurveID)",
+    trusted_base=["stock utls server as the peer (verif_server.go scripted server for the compressed-certificate and ALPS rows); verif_c12.go accessors (VerifClientViewOf, VerifCurveID)",
                   "harness/hs recording conn, ClientHello parser; the runner's ServerHello / ServerKeyExchange parser",
                   "harness/extcoq verbatim copy of hostnameInSNI",
                   "hash, HKDF, exporters, key agreement, signatures, Finished: uninterpreted / abstract in the model, real in the runs"],
